@@ -16,9 +16,16 @@ import numpy as np
 import core
 import oracle_faces as of
 import zoo
-from koala.lattice import Lattice, LatticeException, _find_plaquette
+from koala.lattice import Lattice, LatticeException
+try:                                                     # a private helper: present at the pinned commit, free to change its name or signature
+    from koala.lattice import _find_plaquette
+except ImportError:
+    _find_plaquette = None
 
 GAP_MIN = Fraction(1, 10**18)      # sin^2 of the smallest angular gap: below this the input is non-generic
+
+
+PRIVATE_TRACER = {"unusable": False}
 
 
 def canon(es, ds):
@@ -100,8 +107,15 @@ def compare_case(ctx, name, fam, l, o, strict_stats):
         strict_stats["order_or_start_differs"] += 1
     # verdict of every traced walk, through the private tracer
     for w in o["walks"]:
+        if _find_plaquette is None or PRIVATE_TRACER["unusable"]:
+            ctx.count("tie_downgraded_private_tracer_unavailable"); break
         try:
             pl, valid = _find_plaquette(w["e"][0], w["d"][0], l)
+        except TypeError as ex:
+            # the private tracer no longer takes (edge, direction, lattice): the walk-by-walk comparison is dropped (recorded), the comparison of the public
+            # plaquette list with the model above is what ties the model to the code
+            PRIVATE_TRACER["unusable"] = True
+            ctx.count("tie_downgraded_private_tracer_unavailable"); break
         except Exception as ex:
             ctx.corr_break(f"{name}: _find_plaquette raised {type(ex).__name__}", dict(case=name, lattice=zoo.lat_to_json(l)))
             break
